@@ -114,9 +114,22 @@ def gen_plan(rng, index, tier):
             kw["which"] = rng.choice(["power", "flux", "mgFlux", "keff", "notes", "buLimit", "pdens", "detailedNDens"])
         steps.append(c06._mk_step(0, a["name"], pt, op, **kw))
     if cfg.get("fuelHandler"):
+        st["trackAssems"] = rng.random() < 0.6
         for c in range(n):
             for _ in range(rng.choice([0, 1, 2])):
                 steps.append({"life": 0, "actor": "fuelHandler", "hook": "BOC", "cycle": c, "op": "swap", "a": rng.randrange(1000), "b": rng.randrange(1000)})
+            if cfg["blueprint"].get("sfp") and rng.random() < 0.3:
+                # discharge to the spent-fuel pool: the pool's own grid and its assemblies become part of the state
+                steps.append({"life": 0, "actor": "fuelHandler", "hook": "BOC", "cycle": c, "op": "discharge", "a": rng.randrange(1000)})
+    if any(s["op"] == "discharge" for s in steps):
+        # fresh assemblies arrive with unset verification parameters; str/bool collections with unset
+        # entries are refused at write time (C05's subject), so those kinds are not used in such runs
+        for s in steps:
+            if s.get("vkind") in ("all-str", "all-bool"):
+                s["vkind"] = "all-float"
+            if s.get("param") == "vS0":
+                s["param"] = "vP2"
+                s["vkind"] = "float"
     cfg["reader"] = {"loads": rng.randint(1, 3), "pick": rng.randrange(10**6), "resave": rng.random() < 0.6, "sortReactor": True}
     return {"config": cfg, "steps": steps}
 
